@@ -187,9 +187,18 @@ func gen(r *hx.Rng, n int, tier string) []string {
 	cfgs := allConfigs(tier)
 	var out []string
 	// one unmutated signature and one sign case per configuration first, then the mutation stream
+	byScheme := map[string][]config{}
+	for _, c := range cfgs {
+		byScheme[c.scheme] = append(byScheme[c.scheme], c)
+	}
 	for i := 0; len(out) < n; i++ {
 		c := cfgs[i%len(cfgs)]
 		round := i / len(cfgs)
+		if round >= 2 {
+			// weighted: the encodings of ECDSA carry most of the property
+			sch := hx.PickS(r, []string{"ecdsa", "ecdsa", "ecdsa", "ecdsa", "ecdsa", "ecdsa", "ed25519", "pkcs1", "pss", "pss"})
+			c = hx.PickS(r, byScheme[sch])
+		}
 		switch {
 		case round == 0:
 			out = append(out, x.vcase(c, "ok:tink"))
@@ -200,6 +209,9 @@ func gen(r *hx.Rng, n int, tier string) []string {
 			case 0:
 				out = append(out, x.codec())
 			case 1:
+				if r.Bool() {
+					c = hx.PickS(r, append(byScheme["pkcs1"], byScheme["pss"]...))
+				}
 				out = append(out, x.ctor(c))
 			case 2:
 				out = append(out, x.scase(c))
@@ -273,6 +285,10 @@ func (x *g) ctor(c config) string {
 		m.SetBit(m, 0, 1)
 		pub = m.Bytes()
 		label = "any:ctor-1024"
+	}
+	if label != "any:ctor-hash" && r.Chance(60) {
+		// the rule of internal/signature (validRSAPublicKey) is reached directly through API I
+		s.api, s.variant, s.id = "I", "R", 0
 	}
 	return vcase{s, pub, append(s.prefix(), r.Bytes(len(pub))...), msg, label}.line()
 }
